@@ -57,6 +57,7 @@ let gen ~(tier : string) ~(seed : int) ~(emit : Sexp.t -> unit) : unit =
     let p = Gen_prog.program r m t size in
     emit (case_pipe (Gen_prog.to_string p));
     if i mod 8 = 0 then emit (case_pipe (Gen_prog.confusable r));
+    if i mod 12 = 0 then emit (case_pipe (Gen_prog.confusable_index r));
     (* a misordered variant: accepted only if the later definition is a value (D7), otherwise it must be rejected *)
     if i mod 3 = 0 then begin
       let q = Gen_prog.misorder r p in
